@@ -2,11 +2,16 @@
    Integer lerp is proved for all a, b of magnitude <= 2^23 and all finite binary32 scalars through Flocq's
    correctness theorems; it is total by construction (the model has no error result and mirrors a Rust
    expression made of float operations and saturating casts only). Easing: endpoints of the 19 libm-free
-   functions by evaluation. PARTIAL: finiteness of the easing functions on all of [0,1] is not proved (it is
-   checked on a grid by the correspondence run); the six libm-based functions are outside the model. *)
+   functions by evaluation (exact: f 0 = 0, f 1 = 1); finiteness (no infinity, no NaN) for every finite binary32
+   of [0,1] by an interval calculus over Flocq's correctness theorems (Motion/EasingFinite.v), and the range
+   [0,1] for all nineteen (Motion/EasingUnit.v). f32 lerp
+   (Motion/LerpFloat.v): finite for endpoints of magnitude <= 2^98, exact at 0, monotone in the scalar; it is
+   not exact at 1 and can leave [a, b] (witness below). PARTIAL: the six libm-based functions are outside
+   the model. *)
 From Coq Require Import ZArith Reals Bool List.
 From Flocq Require Import Core IEEE754.BinarySingleNaN.
 From Syc Require Import Motion.F32 Motion.Lerp Motion.LerpFacts Motion.Easing Motion.EasingFacts.
+From Syc Require Import Motion.EasingFinite Motion.EasingUnit Motion.LerpFloat.
 Import ListNotations.
 
 Theorem C19_lerp_int_start : forall lo hi a b s,
@@ -25,6 +30,66 @@ Proof. exact lerp_int_between. Qed.
 
 Theorem C19_ease_endpoints : forallb endpoints_ok E.all = true.
 Proof. exact ease_endpoints. Qed.
+
+Theorem C19_ease_finite : forall f, In f E.all ->
+  forall x, is_finite x = true -> (0 <= B2R x <= 1)%R -> is_finite (f x) = true.
+Proof. exact ease_finite. Qed.
+
+(* in binary32 arithmetic every one of the nineteen functions maps [0,1] into [0,1] *)
+Theorem C19_ease_unit_interval : forall f, In f E.all ->
+  forall x, is_finite x = true -> (0 <= B2R x <= 1)%R ->
+  is_finite (f x) = true /\ (0 <= B2R (f x) <= 1)%R.
+Proof. exact ease_unit_all. Qed.
+
+(* f (+0) = +0 and f 1 = 1 exactly *)
+Theorem C19_ease_endpoints_exact : forall f, In f E.all ->
+  B2R (f (F32.of_Z 0)) = 0%R /\ B2R (f (F32.of_Z 1)) = 1%R.
+Proof. exact ease_endpoints_exact. Qed.
+
+(* outside [0,1] the functions are not finite in general *)
+Theorem C19_ease_finite_needs_range :
+  is_finite E.two = true /\ is_nan (E.circ_in E.two) = true /\
+  is_finite (E.c 1 100) = true /\ is_finite (E.quint_in (E.c 1 100)) = false.
+Proof. exact ease_finite_needs_range. Qed.
+
+Theorem C19_lerp_f32_finite : forall a b s,
+  is_finite a = true -> is_finite b = true -> is_finite s = true ->
+  (Rabs (B2R a) <= bpow radix2 98)%R -> (Rabs (B2R b) <= bpow radix2 98)%R -> (0 <= B2R s <= 1)%R ->
+  is_finite (lerp_f32 a b s) = true /\ (Rabs (B2R (lerp_f32 a b s)) <= bpow radix2 100)%R.
+Proof. exact lerp_f32_finite. Qed.
+
+Theorem C19_lerp_f32_start : forall a b s,
+  is_finite a = true -> is_finite b = true -> is_finite s = true ->
+  (Rabs (B2R a) <= bpow radix2 98)%R -> (Rabs (B2R b) <= bpow radix2 98)%R -> B2R s = 0%R ->
+  B2R (lerp_f32 a b s) = B2R a.
+Proof. exact lerp_f32_start. Qed.
+
+Theorem C19_lerp_f32_end : forall a b s,
+  is_finite a = true -> is_finite b = true -> is_finite s = true ->
+  (Rabs (B2R a) <= bpow radix2 98)%R -> (Rabs (B2R b) <= bpow radix2 98)%R -> B2R s = 1%R ->
+  generic_format radix2 fexp32 (B2R b - B2R a)%R ->
+  B2R (lerp_f32 a b s) = B2R b.
+Proof. exact lerp_f32_end. Qed.
+
+Theorem C19_lerp_f32_from_start : forall a b s,
+  is_finite a = true -> is_finite b = true -> is_finite s = true ->
+  (Rabs (B2R a) <= bpow radix2 98)%R -> (Rabs (B2R b) <= bpow radix2 98)%R -> (0 <= B2R s <= 1)%R ->
+  (B2R a <= B2R b -> B2R a <= B2R (lerp_f32 a b s))%R /\
+  (B2R b <= B2R a -> B2R (lerp_f32 a b s) <= B2R a)%R.
+Proof. exact lerp_f32_from_start. Qed.
+
+(* f32 lerp at scalar 1 does not return the target and overshoots it: lerp (-1) (3 * 2^-25) 1 = 2^-23 *)
+Theorem C19_lerp_f32_end_refuted :
+  let a := F32.of_Z (-1) in let b := F32.cst 3 (-25) in let r := lerp_f32 a b (F32.of_Z 1) in
+  bits32 r = bits32 (F32.cst 1 (-23)) /\ F32.ltb b r = true /\ bits32 r <> bits32 b.
+Proof. exact lerp_f32_end_refuted. Qed.
+
+(* f32 lerp of two finite values can be NaN or infinite when the difference overflows *)
+Theorem C19_lerp_f32_overflow_refuted :
+  is_finite (F32.cst (-1) 127) = true /\ is_finite (F32.cst 1 127) = true /\
+  is_nan (lerp_f32 (F32.cst (-1) 127) (F32.cst 1 127) (F32.of_Z 0)) = true /\
+  is_finite (lerp_f32 (F32.cst (-1) 127) (F32.cst 1 127) (F32.cst 1 (-1))) = false.
+Proof. exact lerp_f32_overflow_refuted. Qed.
 
 (* the code as pinned subtracted in the integer type: 200u8.lerp(&100, 0.5) and (-128i8).lerp(&127, 0.5) overflow *)
 Theorem C19_pinned_refuted :
